@@ -131,7 +131,9 @@ Definition bt_exit (b:bt) (raised:bool) (s:st) : st :=
 (* A migration function is a sequence of op.execute(...) statements, `with op.get_context().autocommit_block():`
    sections and, where it fails, a `raise`.  The failure is part of the body: everything after it is dead code. *)
 Inductive aitem := AStmt (x:stmt) | ARaise.                            (* inside an autocommit section *)
-Inductive bitem := BStmt (x:stmt) | BAuto (xs:list aitem) | BRaise.
+Inductive bitem := BStmt (x:stmt) | BAuto (xs:list aitem) | BRaise
+  | BTry (xs:list aitem).   (* try: with op.get_context().autocommit_block(): xs
+                               except BaseException: pass      -- a failure of the section is tolerated *)
 Record step := mkStep {
   s_body : list bitem;
   s_ver : list vop;                (* bookkeeping statements of head_maintainer.update_to_step(step)           *)
@@ -183,6 +185,7 @@ Fixpoint run_items (k:kind) (items:list bitem) (s:st) : st * bool :=
   | BStmt x :: r => run_items k r (sa_exec k (stmt_isddl x) (AEff (stmt_eff x)) s)
   | BAuto xs :: r => let '(s1, raised) := autocommit_block k xs s in
                      if raised then (s1, true) else run_items k r s1
+  | BTry xs :: r => let '(s1, _) := autocommit_block k xs s in run_items k r s1
   end.
 
 Definition run_vops (k:kind) (vs:list vop) (s:st) : st :=
